@@ -43,10 +43,12 @@ CLAIMED = {
          "permutation by (timestamp, signature rank), unique when keys are distinct; in a frame and in a delivered block an ancestor precedes its descendant; "
          "a block's payload is the concatenation of its frame events' payloads (contiguous, creator order) and the frame is the cached frame of its "
          "round-received; round-received is assigned once and kept, received lists hold exactly the events of that round-received without repetition, frames "
-         "of distinct rounds are disjoint, so no event is committed twice. Round-received is monotone along ancestry under static membership (C04_rr_monotone_static); for dynamic "
-         "membership, and the assembled cross-block statement 'ancestors are committed earlier', the full statements are kept as Definitions and evaluated by "
-         "the oracle on every history",
-         "17 theorems, no axioms; premise: event ids (hash ordinals) determine the event; signature ranks / coin bits are harness-supplied data; "
+         "of distinct rounds are disjoint, so no event is committed twice. Under static membership: round-received is monotone along ancestry, an ancestor of an event of a processed round is "
+         "received not later, every ancestor with payload of a committed event is committed in an earlier block or earlier in the same block "
+         "(C04_order_extends_causality), received sets of processed rounds are final. Two literal readings are refuted by witnesses that are facts about the "
+         "algorithm (a frame without transactions produces no block; an ancestor of a received event can be unreceived while its round is still undecided). "
+         "Dynamic membership: oracle on every history",
+         "23 theorems, no axioms; premise: event ids (hash ordinals) determine the event; signature ranks / coin bits are harness-supplied data; "
          "fast-sync reset not modelled",
          "Coq invariant proof over operation lists + gossip-history correspondence (keys e/d/r) + implementation oracle (orderOracle, frameOracle)"),
  "C17": ("State gate of the node (processRPC gate, the four handlers' answer classes, read-only sync / fast-forward handlers with the eventDiff + limit + "
@@ -128,25 +130,28 @@ CLAIMED = {
          "plain map are proved as refutation witnesses (W1-W5). Tied to the code by replaying every operation of generated sequences on the real BadgerStore",
          "13 theorems, no axioms; Badger atomicity/durability and codecs assumed (C15); Reset/Bootstrap out of this model (C11/C13)",
          "Coq refinement proof (simulation relation) + operation-level correspondence with the real BadgerStore"),
- "C01": ("Proved in Coq for every reachable state of the per-event pipeline (any insertion order incl. late witnesses, ProcessSigPool, any two nodes over one event "
-         "universe) under static membership and no fork across the two nodes: no consensus pass ever fails; the coordinates mean what they should (invariant cinv: "
-         "first descendants incl. the walk-stop rule, memoised rounds satisfy the round equation); two nodes never decide a witness's fame differently and a "
-         "decision on a smaller view is the decision of every larger view (view_ok / same_history DISCHARGED); decided rounds have the same famous-witness set "
-         "(late witnesses are decided not famous by everybody); an event received by both nodes has the same round-received. Block-level equality (frames, "
-         "indexes) is kept as the full statement and is evaluated by the oracle on real cores after every action of random lagging-view gossip histories with "
-         "static and dynamic membership; every observable of every node is compared with the model after every action",
-         "16 theorems, no axioms; premises: event id determines the event (hash collision freedom), static membership (no accepted internal transaction), the two "
-         "nodes do not hold the two branches of a fork; dynamic membership and frame/block equality: oracle + correspondence only",
-         "Coq invariant proofs over operation lists (7000+ lines: coordinates, strongly-see, rounds as functions of ancestry, virtual-voting safety) + gossip-history correspondence + prefix-consistency oracle"),
- "C03": ("Proved in Coq (per-event mode, static membership): round, witness flag, Lamport timestamp, strongly-see and see of a stored event are functions of its "
-         "ancestry: any two reachable states over one universe (any insertion orders, any cuts, any nodes) agree on them for the events they share; fame "
-         "decisions are independent of witness iteration order and monotone in the view; the consensus passes never touch the admitted DAG. Refuted in Coq with a "
-         "15-event witness replayed on the code: results depend on the batching of consensus passes (known finding). Whole-DAG order / prefix / store / cache "
-         "independence are full statements kept as Definitions and evaluated on every generated DAG (random topological orders incl. maximally delayed creators, "
-         "downward-closed cuts, Badger vs in-memory, batch sizes), each run also replayed on the model",
-         "8 theorems, no axioms; 'the same events are admitted under every topological order' and round-received / frames / blocks as functions of the DAG are not "
-         "yet theorems; batching clause is a known finding",
-         "Coq theorems + refutation witness + DAG re-feeding differential oracle + model replay (per-event and batched)"),
+ "C01": ("PROVED in Coq for static membership (C01_agreement, C01_agreement_prefix): for any two nodes reachable by any operation sequences (insertions in any order incl. "
+         "late witnesses and invalid attempts, ProcessSigPool) over one fork-free event universe, delivered blocks with the same position are equal in index, "
+         "round-received, timestamp, transactions, internal transactions, frame (round, peers, roots, events, peer-set table) and peers, and the shorter chain is a "
+         "prefix of the longer. On the way: no consensus pass ever fails; the coordinate invariant (first descendants incl. the walk-stop rule, round equation); fame "
+         "agreement and stability with view_ok / same_history DISCHARGED; equal famous-witness sets (late witnesses are decided not famous by everybody); "
+         "round-received agreement; received sets of processed rounds are final; frames agree. The statement without distinct signature tie-break values is "
+         "REFUTED (24-event witness: sort order of two parentless events). Dynamic membership and forks across two honest nodes are not covered by the theorems: "
+         "the oracle evaluates agreement on real cores after every action of random, lagging-view, split-vote (coin rounds, inversions) and dynamic-membership "
+         "histories; every observable of every node is compared with the model after every action",
+         "21 theorems, no axioms; premises: event id determines the event (hash collision freedom), signature tie-break values pairwise distinct, static "
+         "membership (no accepted internal transaction), fork-free universe; signatures, state hash and receipts of a block are outside the compared tuple",
+         "Coq invariant proofs over operation lists (about 12000 lines: coordinates, strongly-see, rounds and frames as functions of ancestry, virtual-voting safety) + gossip-history correspondence + prefix-consistency oracle"),
+ "C03": ("PROVED in Coq (per-event mode, static membership, fork-free attempt sets): two topological insertion orders of one attempt set (valid and invalid "
+         "attempts, possibly on two nodes) admit exactly the same events (C03_admission_order_independent) and give every event the same observables "
+         "(C03_order_independent); a run over a superset admits a superset and the delivered transactions of a downward-closed prefix are a prefix "
+         "(C03_admission_monotone, C03_prefix, C03_blocks_order_consistent); round / witness / Lamport / strongly-see are functions of the ancestry; fame "
+         "decisions are independent of witness iteration order. The statement without fork freedom is refuted (2-event witness). REFUTED with a 15-event witness "
+         "replayed on the code: results depend on the batching of consensus passes (known finding). Store and cache independence are evaluated on generated "
+         "DAGs (random topological orders incl. maximally delayed creators, cuts, Badger vs in-memory, batch sizes, small-cache Badger node in gossip), each run "
+         "also replayed on the model",
+         "14 theorems, no axioms; store type / cache size independence is exploration + correspondence only (the store refinement is C16); batching clause is a known finding",
+         "Coq theorems + refutation witnesses + DAG re-feeding differential oracle + model replay (per-event and batched)"),
  "C05": ("Pool discipline of core.addSelfEvent proved in Coq for every sequence of submissions and succeeding / failing insertions (with appends during the insertion): "
          "accepted transactions = payloads of the node's own events ++ pending pool, in order; exactly one event per transaction; a failed insertion keeps everything "
          "pending. Tied to the code by predicting every self-event's payload and the pool after every action of real cores in gossip histories with injected store "
